@@ -175,7 +175,7 @@ func forEachHybrid(c *Ctx, cb func(tok, label, role, layout string)) {
 }
 
 func runC02(c *Ctx) {
-	c.Res.Rule = "complete finite matrix: claim kind (7) x issuer role (operator, account, user, server, cluster, curve) x subject role x layout (v1, v2) x direction, plus hybrid payloads (top-level kind K1 with nats.type K2 != K1 and nats.version absent/1/2, all roles, both signing layouts). Decode side: forged-but-correctly-signed tokens (payload of a valid token with iss replaced - and, in half of the cells, sub set to the same key; in a third each, issuer_account resp. aud naming an account key -, re-signed by the forged key in the chosen layout), through Decode, DecodeGeneric and every typed decoder. Encode side: every kind x signer role x subject role through the real Encode. Oracle: accepted => issuer role in the property's table and typed decoders only return/accept their own kind, and the kind the returned claims declare (ClaimType) is the kind of the object built and role-checked; Encode with a non-permitted signer or non-fitting subject => error and empty token. non-trivial = distinct matrix cells."
+	c.Res.Rule = "complete finite matrix: claim kind (7) x issuer role (operator, account, user, server, cluster, curve) x subject role x layout (v1, v2) x direction, plus hybrid payloads (top-level kind K1 with nats.type K2 != K1 and nats.version absent/1/2, all roles, both signing layouts). Decode side: forged-but-correctly-signed tokens (payload of a valid token with iss replaced - and, in half of the cells, sub set to the same key; in a third each, issuer_account resp. aud naming an account key -, re-signed by the forged key in the chosen layout), through Decode, DecodeGeneric and every typed decoder. Encode side: every kind x signer role x subject role through the real Encode, with the minimal claims of the kind and with claims of arbitrary other content (reflective generator: every optional section and flag present or absent). Oracle: accepted => issuer role in the property's table and typed decoders only return/accept their own kind, and the kind the returned claims declare (ClaimType) is the kind of the object built and role-checked; Encode with a non-permitted signer or non-fitting subject => error and empty token. non-trivial = distinct matrix cells."
 	roles := []byte{'O', 'A', 'U', 'N', 'C', 'X'}
 	// ---------- decode side ----------
 	for _, kind := range allKinds {
@@ -243,25 +243,37 @@ func runC02(c *Ctx) {
 	for _, kind := range allKinds {
 		for _, role := range []byte{'O', 'A', 'U', 'N', 'C'} {
 			for sr, sub := range subjects {
-				claims := newClaimsOf(kind, sub)
-				kp := kpN(role, 2)
-				tok, err := encodeOp(c, kind, claims, kp, true)
 				permitted := strings.ContainsRune(allowedRoles[kind], rune(role))
 				fits := true
 				if want, ok := subjectRoleOf[kind]; ok {
 					fits = sr == want
 				}
 				rp := c02Replay{"encode", kind, string(role), string(sr), "", ""}
-				if !permitted || !fits {
-					if err == nil || tok != "" {
-						c.Violate("encode-accepts", fmt.Sprintf("Encode of a %s claim succeeded with signer role %c and subject role %c", kind, role, sr), rp)
+				// the minimal claims of the kind, then claims with arbitrary other content (every optional section and
+				// flag present or absent: bearer token, scoped keys, limits, ...): the role rules hold whatever else is set
+				rich := 4
+				if c.Thorough() {
+					rich = 40
+				}
+				for shape := 0; shape <= rich; shape++ {
+					claims := newClaimsOf(kind, sub)
+					if shape > 0 {
+						claims, _ = randomClaims(c, kind, true)
+						claims.Claims().Subject = sub
 					}
-					c.Count("encode-refused")
-				} else {
-					if err != nil {
-						c.Count("encode-error-on-permitted")
+					kp := kpN(role, 2)
+					tok, err := encodeOp(c, kind, claims, kp, true)
+					if !permitted || !fits {
+						if err == nil || tok != "" {
+							c.Violate("encode-accepts", fmt.Sprintf("Encode of a %s claim (content shape %d) succeeded with signer role %c and subject role %c", kind, shape, role, sr), rp)
+						}
+						c.Count("encode-refused")
 					} else {
-						c.Count("encode-ok")
+						if err != nil {
+							c.Count("encode-error-on-permitted")
+						} else {
+							c.Count("encode-ok")
+						}
 					}
 				}
 			}
